@@ -34,7 +34,7 @@ PROPS = {
         "py": ["builder_forward"],
         # canonical / stable is carried by add_expr, the literal interning path, the cached constants and the growth lemmas;
         # WHAT each operator builder denotes belongs to the chain of C01 (which runs the whole unit)
-        "only": {"context": r"^(add_expr|Context::index|Context::default|get_true|get_false|bv_lit|bit_vec_val|zero|one|ones|zero_extend|sign_extend|BVLitValue::|lemma_|theorem_)"},
+        "only": {"context": r"^(add_expr|Context::index|Context::default|get_true|get_false|bv_lit|bit_vec_val|zero|one|ones|zero_extend|sign_extend|slice|BVLitValue::|lemma_|theorem_)"},
         "ax": True,
         "level": "proof",
     },
